@@ -163,6 +163,32 @@ pub fn corpus_files() -> Vec<std::path::PathBuf>
 	v
 }
 
+/// every k-th repository corpus file of at most `max_len` bytes
+pub fn fuzz_seed_corpus(max_len: usize, n: usize) -> Vec<Vec<u8>>
+{
+	let all: Vec<Vec<u8>> = corpus_files()
+		.iter()
+		.filter_map(|p| std::fs::read(p).ok())
+		.filter(|b| b.len() <= max_len)
+		.collect();
+	let step = (all.len() / n.max(1)).max(1);
+	all.into_iter().step_by(step).take(n).collect()
+}
+
+pub fn fuzz_dictionary() -> Vec<String>
+{
+	[
+		"fn", "var", "const", "if", "else", "goto", "loop", "as", "cast", "pub", "extern", "struct",
+		"word8", "word16", "word32", "word64", "word128", "import", "i8", "i16", "i32", "i64", "i128",
+		"u8", "u16", "u32", "u64", "u128", "usize", "bool", "char8", "void", "true", "false", "->",
+		"|:", "==", "!=", "<=", ">=", "<<", ">>", "..", "[..]", "[]", "print!", "format!", "abort!",
+		"file!", "line!", "0x", "0b", "'\\n'", "\"\\u{20ac}\"", "\r\n", "//", "return:", "&", "|x|",
+	]
+	.iter()
+	.map(|s| s.to_string())
+	.collect()
+}
+
 pub fn mutate_bytes(c: &mut Choices, data: &mut Vec<u8>, other: &[u8])
 {
 	let n = 1 + c.draw(4);
@@ -782,6 +808,29 @@ impl Check for C15
 			"E102 (2 GiB) and the 2^24 hard token cap are out of reach of these input sizes; only the max(len/2, 65536) heuristic is exercised".into(),
 			"termination is observed up to the per-block watchdog (exit 2 when hit, never a violation)".into(),
 		]
+	}
+	fn judge_bytes(&self, bytes: &[u8]) -> Option<CaseOut>
+	{
+		let mut out = CaseOut::default();
+		let r = run_delta(bytes, true);
+		check_tokens(bytes, &mut out);
+		classify(&r, &mut out);
+		Some(out)
+	}
+	fn fuzz_specs(&self, tier: Tier) -> Vec<FuzzSpec>
+	{
+		if tier == Tier::Quick
+		{
+			return Vec::new();
+		}
+		vec![FuzzSpec {
+			target: "fuzz_delta",
+			runs_per_job: 300_000,
+			jobs: 14,
+			max_len: 4096,
+			seeds: fuzz_seed_corpus(4096, 120),
+			dictionary: fuzz_dictionary(),
+		}]
 	}
 	fn streams(&self) -> Vec<Box<dyn Stream>>
 	{
